@@ -76,7 +76,11 @@ SOLVER_KIND = os.environ.get('SYMX_SOLVER', 'default')
 SAMPLE_LARGE_DOMAINS = True
 # values always tried when a large-domain character has to be sampled: line terminators, quotes, backslash, comment and
 # statement punctuation, a letter, a digit, NUL, a non-BMP character
-INTERESTING = [10, 13, 34, 39, 92, 35, 59, 40, 41, 97, 48, 0, 0x2028, 0x1f600]
+INTERESTING = [10, 13, 34, 39, 92, 35, 59, 40, 41, 97, 48, 0, 0x2028, 0x1f600,
+               # code points that Unicode normalisation or case mapping turns into ASCII metacharacters / letters or into more than one
+               # character: U+1FEF -> `, U+212A -> K, U+037E -> ;, U+0958 (two characters under NFC), U+FF02 -> ", U+FF3C -> backslash (NFKC),
+               # U+00DF (upper: SS), U+0130 (lower: two characters)
+               0x1fef, 0x212a, 0x37e, 0x958, 0xff02, 0xff3c, 0xdf, 0x130]
 
 
 def make_solver():
